@@ -93,7 +93,7 @@ Definition cinv (s : cst) (t : list out) : Prop :=
   | CNone => statuses t = [] /\ c_pending s = None /\ c_rpc s = false /\ c_active s = false
   | CDial => statuses t = [] /\ c_pending s = None /\ c_rpc s = false
   | CPoll => statuses t = []
-  | CWait => statuses t = [RUNNING]
+  | CWait => statuses t = [RUNNING] \/ (statuses t = [] /\ c_rpc s = false)
   | CEnd => exists x, terminal x = true /\ (statuses t = [x] \/ statuses t = [RUNNING; x])
   end.
 
@@ -112,16 +112,19 @@ Proof.
               | split; [intro Hn; first [reflexivity | congruence | specialize (HR Hn); congruence] | ]]).
   all: try exact HI0.
   all: try (repeat split; first [assumption|reflexivity]).
+  all: try (right; split; [assumption|reflexivity]).
+  all: try (destruct HI0 as [HI0|[HI0 HI1]]; [left; exact HI0|right; split; [exact HI0|first [reflexivity|exact HI1]]]).
   all: try (match goal with HI : statuses _ = _ |- _ => rewrite HI end; cbn; reflexivity).
+  all: try (match goal with HI : statuses _ = _ |- _ => rewrite HI end; cbn; left; reflexivity).
   all: try (match goal with HI : statuses _ = _ |- _ => rewrite HI end; cbn; split; reflexivity).
   all: try (match goal with HI : statuses _ = _ |- _ => rewrite HI end; cbn; eexists; (split; [|left; reflexivity]); reflexivity).
   all: try (match goal with HI : statuses _ = _ |- _ => rewrite HI end; cbn; eexists; (split; [|right; reflexivity]); reflexivity).
   - (* reaper, a final state was posted *)
-    rewrite HI0; cbn. exists s. split; [|right; reflexivity].
-    destruct HP as [HP|[HP|HP]]; inv HP; reflexivity.
+    exists s. split; [destruct HP as [HP|[HP|HP]]; inv HP; reflexivity|].
+    destruct HI0 as [HI0|[HI0 _]]; rewrite HI0; cbn; auto.
   - (* reaper, nothing posted *)
-    rewrite HI0; cbn. exists (default_final d). split; [|right; reflexivity].
-    destruct d as [[|p]|]; reflexivity.
+    exists (default_final d). split; [destruct d as [[|p]|]; reflexivity|].
+    destruct HI0 as [HI0|[HI0 _]]; rewrite HI0; cbn; auto.
 Qed.
 
 Lemma cinv_reach b l s t : crun b cinit l = (s, t) -> cinv s t.
@@ -137,7 +140,7 @@ Proof.
   - destruct H as [H _]; rewrite H; reflexivity.
   - destruct H as [H _]; rewrite H; reflexivity.
   - rewrite H; reflexivity.
-  - rewrite H; reflexivity.
+  - destruct H as [H|[H _]]; rewrite H; reflexivity.
   - destruct H as [x [Hx [E|E]]]; rewrite E; cbn; rewrite Hx; reflexivity.
 Qed.
 
@@ -215,62 +218,39 @@ Proof.
 Qed.
 
 (* ---------- crashes ---------- *)
-Definition ck_ok (s : cst) : Prop :=
-  c_crashed s = false /\ (c_phase s = CPoll -> c_rpc s = true).
-(* Kill does not arrive during the start-up poll of an active task *)
-Definition kill_safe (s : cst) : Prop :=
-  c_active s = false \/ c_phase s <> CPoll.
-
-Lemma ck_ok_step b s a s' o :
-  ck_ok s -> (a = AKill -> kill_safe s) -> cstep b s a = (s', o) ->
-  ck_ok s' /\ has_crash o = false.
+(* no step of a controllable task's life crashes the executor (repairs of C17-e/f) *)
+Lemma cstep_no_crash b s a s' o :
+  c_crashed s = false -> cstep b s a = (s', o) -> has_crash o = false /\ c_crashed s' = false.
 Proof.
-  intros [Hc Hp] Hk HS. unfold ck_ok, kill_safe in *.
-  destruct s as [ph rpc act pend kpc tg proc gc dn cr]. cbn in Hc, Hp, Hk. subst cr.
-  destruct a.
-  2: { (* AKill *)
-    destruct (Hk eq_refl) as [Ha|Ha]; subst;
-    cstep_cases HS; (split; [split; [reflexivity|intro; first [congruence|auto]]|reflexivity]). }
-  all: destruct ph; try (rewrite (Hp eq_refl) in * );
-    cstep_cases HS;
-    (split; [split; [reflexivity|intro; first [congruence|reflexivity|auto]]|reflexivity]).
+  intros Hc HS. destruct s as [ph rpc act pend kpc tg proc gc dn cr]. cbn in Hc. subst cr.
+  cstep_cases HS; split; reflexivity.
 Qed.
 
-Lemma ctl_no_crash_gen b l : forall s,
-  ck_ok s ->
-  (forall l1 l2, l = l1 ++ AKill :: l2 -> kill_safe (fst (crun b s l1))) ->
+Lemma ctl_no_crash b l : forall s,
+  c_crashed s = false ->
   has_crash (snd (crun b s l)) = false /\ c_crashed (fst (crun b s l)) = false.
 Proof.
-  induction l as [|a l IH]; intros s HK HS; cbn.
-  - split; [reflexivity|exact (proj1 HK)].
-  - destruct (cstep b s a) as [s1 o1] eqn:E1.
-    assert (Ha : a = AKill -> kill_safe s).
-    { intro; subst. exact (HS [] l eq_refl). }
-    destruct (ck_ok_step _ _ _ _ _ HK Ha E1) as [HK1 Hc1].
-    specialize (IH s1 HK1).
-    destruct (crun b s1 l) as [s2 o2] eqn:E2. cbn in *.
-    rewrite has_crash_app, Hc1. cbn. apply IH.
-    intros l1 l2 El. specialize (HS (a :: l1) l2). cbn in HS. rewrite E1 in HS.
-    subst l. specialize (HS eq_refl). destruct (crun b s1 l1); exact HS.
-Qed.
-
-Lemma ctl_no_crash_partial b l :
-  (forall l1 l2, l = l1 ++ AKill :: l2 -> kill_safe (fst (crun b cinit l1))) ->
-  has_crash (snd (crun b cinit l)) = false /\ c_crashed (fst (crun b cinit l)) = false.
-Proof.
-  apply ctl_no_crash_gen. split; [reflexivity|intro H; discriminate H].
+  induction l as [|a l IH]; intros s Hc; cbn; [auto|].
+  destruct (cstep b s a) as [s1 o1] eqn:E1.
+  destruct (cstep_no_crash _ _ _ _ _ Hc E1) as [Ho1 Hc1].
+  specialize (IH s1 Hc1). destruct (crun b s1 l) as [s2 o2]. cbn in *.
+  rewrite has_crash_app, Ho1. exact IH.
 Qed.
 
 Definition nbeh : beh := mkBeh (DExit 0) false false true None false.
+
+(* the old witness of C17-e: KILL during the start-up poll; the poll loop notices, waits, reports *)
+Lemma ctl_kill_during_poll :
+  let '(s, t) := crun nbeh cinit [ALaunch; ADialOk; APollTick; AKill; APollTick; AReap 0; AKillStep] in
+  has_crash t = false /\ statuses t = [KILLED] /\ sigs t = [TERM] /\
+  c_kpc s = KFin /\ is_run (c_proc s) = false /\ c_gc s = false.
+Proof. vm_compute. repeat split; reflexivity. Qed.
 
 (* KILL before the dial returned: refused (no crash any more), the task goes on starting *)
 Lemma ctl_kill_before_dial_refused :
   let '(s, t) := crun nbeh cinit [ALaunch; AKill] in
   t = [] /\ c_crashed s = false /\ c_active s = false /\ is_run (c_proc s) = true.
 Proof. vm_compute. repeat split; reflexivity. Qed.
-Lemma ctl_crash_kill_during_poll :
-  has_crash (snd (crun nbeh cinit [ALaunch; ADialOk; APollTick; AKill; APollTick])) = true.
-Proof. vm_compute. reflexivity. Qed.
 (* a KILL that finds no client (a Kill is under way): no crash, nothing sent, only the task dropped *)
 Lemma ctl_second_kill_harmless b s s' o :
   c_crashed s = false -> c_rpc s = false -> cstep b s AKill = (s', o) ->
@@ -450,6 +430,16 @@ Lemma ctl_kill_sweeps_forked_child :
   c_crashed s = false /\ c_kpc s = KFin /\ sigs t = [TERM; INT; KILL9] /\
   is_run (c_proc s) = false /\ c_gc s = false.
 Proof. vm_compute. repeat split; reflexivity. Qed.
+
+(* a device that shows ERROR / DONE during the start-up poll: TASK_FAILED, and neither the device
+   nor anything it forked is left (repair C17-k) *)
+Lemma ctl_wrong_start_leaves_nothing b s s' o :
+  cstep b s APollBad = (s', o) -> statuses o = [FAILED] ->
+  c_gc s' = false /\ is_run (c_proc s') = false /\ c_phase s' = CEnd /\ sigs o = [KILL9; KILL9].
+Proof.
+  intros HS HF. destruct s as [ph rpc act pend kpc tg proc gc dn cr].
+  cstep_cases HS; try discriminate; repeat split; reflexivity.
+Qed.
 
 (* ====================================================================================== *)
 (* basic and hook tasks                                                                    *)
